@@ -1,6 +1,6 @@
 (* Wire format shared with the Go harness: a case is a list of naturals (a prefix-coded tree); so is the answer.
    The decoder is Gallina, so the extracted driver and the in-kernel vm_compute route run the same function. *)
-From LD Require Import Base F32 Data Scan Semver Time Model Ops Bucket Eval Codec Buffer Nesting.
+From LD Require Import Base F32 Data Scan Semver Time Model Ops Bucket Eval Codec Buffer Nesting Options.
 Open Scope Z_scope.
 
 Inductive T := A (n : N) | S (b : str) | L (l : list T).
@@ -322,6 +322,18 @@ Definition run_case1 (t : T) : T :=
   | L [A 11%N; L pieces] =>
     match d_all (fun p => match p with L [A n; S x] => Some (n, x) | _ => None end) pieces with
     | Some ps => Ab (nesting_ok (expand ps))
+    | None => bad
+    end
+  (* 12: option list of NewEvaluatorWithOptions *)
+  | L [A 12%N; L os] =>
+    match d_all (fun o => match o with
+                          | L [] => Some None
+                          | L [A 1%N; A b] => Some (Some (OSecondary (negb (N.eqb b 0))))
+                          | L [A 2%N; A b] => Some (Some (OLogger (negb (N.eqb b 0))))
+                          | L [A 3%N; A b] => Some (Some (OProvider (negb (N.eqb b 0))))
+                          | _ => None
+                          end) os with
+    | Some l => let c := build_ecfg l in L [Ab (ec_secondary c); Ab (ec_logger c); Ab (ec_provider c)]
     | None => bad
     end
   | _ => bad
